@@ -67,7 +67,7 @@ def _observe_group(u, g, with_lookup=True):
     }
     if with_lookup:
         signal.signal(signal.SIGALRM, _alarm)
-        signal.setitimer(signal.ITIMER_REAL, 3.0)
+        signal.setitimer(signal.ITIMER_REAL, 1.5)
         try:
             o["lookup"] = list(g.lookup_order)
         except _Hang:
